@@ -16,6 +16,8 @@ def main():
         seed = 0
     prop = a.prop.upper()
     os.environ.pop('PYTHONHASHSEED', None)
+    import logging
+    logging.disable(logging.CRITICAL)      # spyne logs tracebacks of handled errors
     try:
         core.assert_repo()
         mod = importlib.import_module('harness.' + prop.lower())
